@@ -148,7 +148,7 @@ func (a *AuthenticateASCII) getPassword(response tq.Response, request tq.Request
 			a.Context(),
 			tq.NewAuthenReply(
 				tq.SetAuthenReplyStatus(tq.AuthenStatusFail),
-				tq.SetAuthenReplyServerMsg(fmt.Sprintf("authentication denied [%s]", a.username)),
+				tq.SetAuthenReplyServerMsg(fmt.Sprintf("authentication denied [%.255s]", a.username)),
 			),
 			a.recorderWriter,
 		)
